@@ -15,6 +15,7 @@ level: header / data / zero blocks of 512 bytes), SHA-256, JSON encoding, `time.
 -/
 import Apko.Model.Text
 import Apko.Generated.Oci
+import Apko.Generated.Glue
 
 namespace Apko.Oci
 
@@ -440,7 +441,8 @@ image's `/etc/passwd` (shipped by a package or configured) by that user's id.  T
 configuration *as resolved*; `passwd` is the `(name, uid)` column pair of the image's own passwd file. -/
 
 def serviceBundleType : Text := "service-bundle".toList
-def serviceBundleCommand : Text := "/bin/s6-svscan /sv".toList
+/-- the command `ValidateServiceBundle` fills in (regenerated from /repo) -/
+def serviceBundleCommand : Text := Generated.serviceBundleCommand.toList
 
 /-- first passwd entry with that name wins; an unknown name (or a number) stays as written -/
 def Spec.resolveRunAs (passwd : List (Text × Text)) (runAs : Text) : Text :=
